@@ -7,6 +7,10 @@ ids = [p["id"] for p in props]
 
 # id -> (technique, level text, level note, design ref)
 CLAIMED = {
+ "C13": ("schedule enumeration: real threads paused at cfg-guarded yield points inside Resolve::get, a controller grants one at a time, the grant-choice tree is explored by DFS with a preemption bound; plus randomized stress on free-running threads; oracle = each call's sequential outcome",
+         "Generated-input search over schedules: for 160 (quick) / 800 (thorough) scenarios of 2-3 threads x 1-2 calls on corpus and generated documents, with shared or per-thread resolvers and SyncCache or no cache, up to 60 / 4000 grant sequences each with at most 3 preemptions are executed in worker processes; stress runs 4-8 free threads x 12 calls repeated 40-300 times. Every call must return what it returns alone; a panic, a process abort from the guard's destructor, a spurious 'Recursive reference' or a state where no thread can proceed is a violation; a stall is inconclusive.",
+         "interleavings inside globalcache's own locks and real memory ordering are only sampled by the stress driver; hook points are the three listed in MANIFEST.hooks",
+         "DESIGN.md §4 C13"),
  "C20": ("enumeration of corpus pages and small page subsets + proptest-generated documents, imported in worker processes; oracle = page/operation equality, resource content equality with references followed, independent structural validation of the new file, sharing preserved",
          "Generated-input search: every corpus page alone and in ordered pairs, and pages of generated documents (shared fonts/images/forms, object streams, encryption, private entries with reference cycles) are imported with one Importer, built and reloaded; boxes, rotation, operations and every resource the operations name must equal the source's (references followed, stream data compared, entries that only state a default ignored), the independent reader must find no dangling reference or bad stream length, shared source objects must stay shared, and the worker must not crash or time out.",
          "comparison ignores entries that only spell out a specification default and treats one-element /Filter arrays as the single filter; imports the library refuses are outside the property",
